@@ -130,7 +130,8 @@ Inductive uop := UNot | UOther.
 (* oracle for a string leaf that is not a process name *)
 Inductive rxres :=
 | RxMatches (l : list Z)   (* names matched by ^leaf$, in processes order *)
-| RxError (k : crash).     (* re.compile raised: ReError for re.error, OtherError for OverflowError/RecursionError *)
+| RxError (k : crash).     (* re.compile raised one of the exceptions _get_matches catches: ReError for re.error,
+                              OtherError for OverflowError / RecursionError *)
 
 Inductive expr :=
 | EStr (exact : option Z) (rx : rxres)       (* ast.Constant with a str value; exact = Some p when leaf in processes *)
@@ -152,24 +153,19 @@ Definition evcall := (dynfn * list bool)%type.
 Definition apply_dyn (f : dynfn) (l : list bool) : bool :=
   match f with DAll => forallb (fun b => b) l | DAny => existsb (fun b => b) l end.
 
-(* ---- the single place that decides the hazardous shapes (F14 and relatives) ----
+(* ---- the single place that decides the shapes that used to be hazardous (F14 and relatives) ----
    Some r  : evaluate() ends with r at this point;
    None    : the shape is not checked by the code (evaluation goes on).
-   CURRENT CODE (application.py @ /repo HEAD):
-     node.func.id on a non-Name func      -> AttributeError
-     node.args[0] on an empty args list   -> IndexError
-     re.compile on an invalid pattern     -> re.error (or OverflowError...)
-     extra positional args / keywords     -> silently ignored
-   FIXED behaviour would be [fun _ => Some FParseError]. *)
+   Since /repo commit 67529b2 ("fix: reject unsupported operational status formulas ...") every one of them raises
+   ApplicationStatusParseError:
+     Call whose func is not an ast.Name           -> 'unsupported function call'
+     all()/any() without positional argument      -> 'takes exactly one positional argument'
+     extra positional arguments / keywords        -> 'takes exactly one positional argument'
+     re.compile raising re.error / OverflowError / RecursionError -> 'invalid pattern'
+   (before the fix: AttributeError, IndexError, silently ignored, re.error/OverflowError respectively). *)
 Inductive hazard := HzFuncNotName | HzNoArgs | HzBadRegex (k : crash) | HzExtraArgs.
 
-Definition hazard_policy (h : hazard) : option fres :=
-  match h with
-  | HzFuncNotName => Some (FCrash AttributeError)
-  | HzNoArgs => Some (FCrash IndexError)
-  | HzBadRegex k => Some (FCrash k)
-  | HzExtraArgs => None
-  end.
+Definition hazard_policy (h : hazard) : option fres := Some FParseError.
 
 (* ApplicationStatus._get_process_status : displayed_state in RUNNING_STATES, or EXITED expectedly *)
 Definition proc_ok (v : pview) : bool :=
@@ -293,12 +289,13 @@ Inductive top :=
 (* ast.parse(formula) *)
 Inductive parsed :=
 | PSyntaxError
-| PRaise (k : crash)                 (* MemoryError / RecursionError / ValueError of the parser: not caught by the setter *)
+| PParserError                       (* ValueError / RecursionError / MemoryError of the parser: caught by the setter *)
+| PRaise (k : crash)                 (* any other exception of ast.parse (none known for a str argument): not caught *)
 | PBody (n : Z) (first : option top).  (* len(tree.body), tree.body[0] when it exists *)
 
 (* policy of the setter about a single statement that is not an expression statement:
-   CURRENT CODE: stored as is (true). FIXED behaviour would reject it (false). *)
-Definition setter_stores_non_expr : bool := true.
+   since /repo commit 67529b2 it is rejected (`type(tree.body[0]) is not ast.Expr`); it used to be stored. *)
+Definition setter_stores_non_expr : bool := false.
 
 Inductive setter_res := SStored (t : top) | SRejected | SCrash (k : crash).
 
@@ -306,6 +303,7 @@ Inductive setter_res := SStored (t : top) | SRejected | SCrash (k : crash).
 Definition set_formula (p : parsed) : setter_res :=
   match p with
   | PSyntaxError => SRejected
+  | PParserError => SRejected
   | PRaise k => SCrash k
   | PBody n first =>
       if Z.eqb n 1 then
@@ -355,7 +353,8 @@ Definition update (ps : procs) (sequenced : list Z) (tree : option top) : update
   | None => (UOk (mk_uobs st (status_required ps sequenced st)), [])
   | Some TStmtNone => (UOk (mk_uobs st (status_required ps sequenced st)), [])   (* status_tree is None: falsy *)
   | Some TStmtNoValue => (UCrash AttributeError (mk_uobs st (false, false)), [])
-        (* `if self.rules.status_tree:` raises inside update(), after the state was set and the failures reset *)
+        (* `if self.rules.status_tree:` raises inside update(), after the state was set and the failures reset.
+           Since 67529b2 the setter never stores such a statement: unreachable through set_formula. *)
   | Some (TExprStmt e) => formula e
   | Some (TStmtValue e) => formula e
   end.
@@ -599,6 +598,7 @@ Definition spec_setter_ok (a : app) (so : setter_obs) : bool :=
   | ONoFormula => negb (has_formula a)
   | ORejected => match a_formula a with
                  | Some PSyntaxError => true
+                 | Some PParserError => true
                  | Some (PBody n first) =>
                      (* not exactly one statement; or one statement that is not an expression: rejecting it at
                         load time is as acceptable as storing it and reporting a major failure *)
@@ -609,42 +609,7 @@ Definition spec_setter_ok (a : app) (so : setter_obs) : bool :=
   | OSetterCrash _ => false
   end.
 
-(* ------------------------------------------------------------------ known-finding classes (syntactic) *)
-(* shapes are looked for where evaluate() can reach them *)
-Fixpoint has_shape (h : hazard -> bool) (e : expr) : bool :=
-  match e with
-  | EStr None (RxError k) => h (HzBadRegex k)
-  | EStr _ _ => false
-  | ECall f args nkw =>
-      match f with
-      | FNotName _ => h HzFuncNotName
-      | FOtherName => false
-      | _ => match args with
-             | [] => h HzNoArgs
-             | a :: rest => (match rest with [] => negb (Z.eqb nkw 0) | _ => true end) && h HzExtraArgs
-                            || has_shape h a
-             end
-      end
-  | EBoolOp _ vals => existsb (has_shape h) vals
-  | EUnary UNot a => has_shape h a
-  | EUnary UOther _ => false
-  | EOther _ => false
-  end.
-
-Definition is_func_not_name (h : hazard) := match h with HzFuncNotName => true | _ => false end.
-Definition is_no_args (h : hazard) := match h with HzNoArgs => true | _ => false end.
-Definition is_bad_regex (h : hazard) := match h with HzBadRegex _ => true | _ => false end.
-Definition is_extra_args (h : hazard) := match h with HzExtraArgs => true | _ => false end.
-Definition any_hazard (h : hazard) := true.
-
-(* a shape whose current policy is a crash *)
-Definition crashing (h : hazard) : bool := match hazard_policy h with Some (FCrash _) => true | _ => false end.
-(* a shape that the current policy lets through unchecked *)
-Definition unchecked (h : hazard) : bool := match hazard_policy h with None => true | _ => false end.
-
-Definition crash_shape_free (e : expr) : bool := negb (has_shape crashing e).
-Definition hazard_free (e : expr) : bool := negb (has_shape (fun h => crashing h || unchecked h) e).
-
+(* ------------------------------------------------------------------ domain of validity of the model *)
 Definition formula_expr (a : app) : option expr :=
   match single_stmt a with
   | Some (TExprStmt e) => Some e
@@ -652,31 +617,31 @@ Definition formula_expr (a : app) : option expr :=
   | _ => None
   end.
 
-Definition in_class_shape (h : hazard -> bool) (a : app) : bool :=
-  match formula_expr a with Some e => has_shape h e | None => false end.
-
-(* single statement that is not an expression statement *)
-Definition in_class_toplevel (a : app) : bool :=
-  match single_stmt a with
-  | Some (TExprStmt _) => false
-  | Some _ => true
-  | None => false
+(* nesting depth of the part of the tree that evaluate() visits (one Python frame per level) *)
+Fixpoint expr_depth (e : expr) : Z :=
+  match e with
+  | ECall _ (a :: _) _ => 1 + expr_depth a
+  | EBoolOp _ vals => 1 + fold_right (fun x m => Z.max (expr_depth x) m) 0 vals
+  | EUnary UNot a => 1 + expr_depth a
+  | _ => 1
   end.
 
-Definition in_class_parse_raises (a : app) : bool :=
-  match a_formula a with Some (PRaise _) => true | _ => false end.
+(* NOT MODELLED: Python's recursion limit. evaluate() is recursive; a formula nested about 1000 levels deep
+   (e.g. 1000 'not') raises RecursionError out of update(), before and after commit 67529b2. The model is tied to
+   the implementation only for depth <= py_depth_bound (the generators never exceed it); theorems that speak
+   about the code carry H_depth = [depth_ok e] to state this scope explicitly. *)
+Definition py_depth_bound : Z := 64.
+Definition depth_ok (e : expr) : bool := Z.leb (expr_depth e) py_depth_bound.
 
-Definition in_known_class (a : app) : bool :=
-  in_class_shape any_hazard a || in_class_toplevel a || in_class_parse_raises a.
-
-(* well-formedness of the oracle inputs of a case: a body of length 1 has a first statement; leaves only mention
-   process names of the application *)
+(* well-formedness of the oracle inputs of a case: a body of length 1 has a first statement; the parser raised
+   nothing the setter does not catch; leaves only mention process names of the application; depth in scope *)
 Definition app_wf (a : app) : bool :=
   match a_formula a with
   | Some (PBody n None) => negb (Z.eqb n 1)
+  | Some (PRaise _) => false
   | _ => true
   end &&
-  match formula_expr a with Some e => oracle_wf (a_procs a) e | None => true end.
+  match formula_expr a with Some e => oracle_wf (a_procs a) e && depth_ok e | None => true end.
 
 (* ------------------------------------------------------------------ cases and evaluators *)
 Definition case := (app * aobs)%type.
@@ -689,20 +654,8 @@ Definition case_violation (c : case) : bool :=
   sequences_fresh (fst c) &&
   negb (spec_accepts_app (fst c) (snd c) && spec_setter_ok (fst c) (match snd c with (so, _, _, _, _) => so end)).
 
-Definition case_spec_violation (c : case) : bool := case_violation c && negb (in_known_class (fst c)).
+(* no known-finding class is left for C15: every violation is reported *)
+Definition case_spec_violation (c : case) : bool := case_violation c.
 
 Definition mismatches (cs : list case) : list nat := find_idx case_mismatch cs.
 Definition spec_violations (cs : list case) : list nat := find_idx case_spec_violation cs.
-
-Definition known_func_not_name (cs : list case) : list nat :=
-  find_idx (fun c => case_violation c && in_class_shape is_func_not_name (fst c)) cs.
-Definition known_no_args (cs : list case) : list nat :=
-  find_idx (fun c => case_violation c && in_class_shape is_no_args (fst c)) cs.
-Definition known_bad_regex (cs : list case) : list nat :=
-  find_idx (fun c => case_violation c && in_class_shape is_bad_regex (fst c)) cs.
-Definition known_extra_args (cs : list case) : list nat :=
-  find_idx (fun c => case_violation c && in_class_shape is_extra_args (fst c)) cs.
-Definition known_toplevel (cs : list case) : list nat :=
-  find_idx (fun c => case_violation c && in_class_toplevel (fst c)) cs.
-Definition known_parse_raises (cs : list case) : list nat :=
-  find_idx (fun c => case_violation c && in_class_parse_raises (fst c)) cs.
